@@ -11,6 +11,7 @@ import OFV.Proofs.C19QR
 import OFV.Proofs.C19Cost
 import OFV.Proofs.C19LambdaFinal
 import OFV.Proofs.C19LambdaOracle
+import OFV.Proofs.C19MolId
 import OFV.Proofs.C19Mono
 
 namespace OFV.C19
@@ -241,6 +242,22 @@ theorem lambda_norm_oracle (tol : Rat) (n : Nat) (const : GQ) (one two : List GQ
     (hok : Model.C04.jwDCHOk tol n const one two = true) :
     jwOneNorm n (Spec.C04.dchOp n const one two) false = some (lambdaNorm T V) :=
   OFV.C19Jw.lambdaNorm_eq_oracle tol n const one two T V hn hT hV symT symV hok
+
+/-! ### `get_one_norm_int`: the identity coefficient -/
+
+/-- **What `get_one_norm_int_woconst` leaves out is exactly the identity coefficient of the Pauli decomposition.**
+For every number of spatial orbitals and ALL real integrals (no symmetry needed): the trace of the molecular
+Hamiltonian `Spec.C19.molOp` (`constant + Σ h_pq a†_{pσ} a_{qσ} + ½ Σ g_pqrs a†_{pσ} a†_{qτ} a_{rτ} a_{sσ}`), computed from
+the Spec ladder action over all `4^n` Fock states as the oracle does (`pauliTrace … 0 0`), is `4^n · c` with
+`c = constant + Σ_p h_pp + Σ_pq (½ g_pqqp − ¼ g_pqpq)`, and the Model of `get_one_norm_int` is `|c|` plus the Model of
+`get_one_norm_int_woconst`.  (The equality of the remaining part with the non-identity 1-norm is the open statement
+`one_norm_spec`.) -/
+theorem one_norm_identity_coefficient (const : Rat) (h : List (List Rat)) (g : List (List (List (List Rat)))) :
+    ∃ c : Rat,
+      pauliTrace (2 * h.length) ((List.range (2 ^ (2 * h.length))).map (Spec.applyF (molOp h.length const h g))) 0 0
+        = ((2 ^ (2 * h.length) : Nat) : GQ) * (⟨c, 0⟩ : GQ)
+      ∧ oneNorm const h g = Model.C19.rabs c + oneNormWoConst h g :=
+  ⟨OFV.C19P.htildeF h.length const h g, OFV.C19P.mol_trace h.length const h g, OFV.C19P.oneNorm_split const h g⟩
 
 /-- `lambda_norm_spec` in the form the driver evaluates (`c19.spec.dch_pauli_norm`): the matrices are flattened by
 `Spec.C19.flatReal`, the threshold is the extracted `EQ_TOLERANCE`; the driver reports `jwDCHOk` and the 1-norm
